@@ -2,7 +2,9 @@
 cluster.State, syncer and gossip state)."""
 import json
 import os
+import re
 import subprocess
+import time
 
 import gossip as G
 import vp
@@ -72,10 +74,69 @@ def run_u(chk, sched, label, consts, invariants, race=False):
     return v, stats
 
 
+IND_ACTIONS = ["AddLocal(e)", "RemoveLocal(e)", "AddConn(u)", "RemoveConn(u)", "CloseSess(u)"]
+IND_GHOSTS = ("recent", "wait", "last", "radv", "rup")
+
+
+def action_text(path, head):
+    """the definition of an action, without the conjuncts and UNCHANGED members that name the ghost / output /
+    remote-node variables (UpInd.tla has none of them)"""
+    s = open(path).read()
+    m = re.search(r"^" + re.escape(head) + r" ==\n(.*?)\n\n", s, re.S | re.M)
+    if not m:
+        raise vp.Machinery("%s not found in %s" % (head, path))
+    out = []
+    for x in m.group(1).splitlines():
+        x = re.sub(r"\s+", " ", x).strip()
+        if re.match(r"/\\ (%s)' =" % "|".join(IND_GHOSTS), x):
+            continue
+        x = re.sub(r",\s*(%s)\b" % "|".join(IND_GHOSTS), "", x)
+        if x:
+            out.append(x)
+    return out
+
+
+def induction(chk, n):
+    """Unbounded in the length of the history: UpInd.tla (the registry actions of Upstreams.tla, same text) with an
+    inductive invariant discharged by Apalache for every partition of up to n upstream identities over the two
+    endpoints: Init => IndInv and IndInv /\\ Next => IndInv'."""
+    a, b = os.path.join(vp.SPEC, "apalache", "UpInd.tla"), os.path.join(vp.SPEC, "Upstreams.tla")
+    for head in IND_ACTIONS:
+        if action_text(a, head) != action_text(b, head):
+            raise vp.Machinery("%s in UpInd.tla differs from Upstreams.tla" % head)
+    src = open(a).read()
+    uni = "{" + ", ".join('"u%d"' % i for i in range(1, n + 1)) + "}"
+    src, k1 = re.subn(r"^Universe == .*$", "Universe == " + uni, src, flags=re.M)
+    src, k2 = re.subn(r"^MaxU == \d+$", "MaxU == %d" % n, src, flags=re.M)
+    if k1 != 1 or k2 != 1:
+        raise vp.Machinery("UpInd.tla: Universe / MaxU not found")
+    with vp.Scratch("apalache-" + chk.prop) as d:
+        with open(os.path.join(d, "UpInd.tla"), "w") as f:
+            f.write(src)
+        for what, args in (("base", ["--init=Init", "--length=0"]), ("step", ["--init=IndInit", "--length=1"])):
+            t0 = time.time()
+            cmd = ["apalache-mc", "check", "--cinit=CInit", "--inv=IndInv", "--out-dir=" + os.path.join(d, "out")] \
+                + args + ["UpInd.tla"]
+            try:
+                p = subprocess.run(cmd, cwd=d, stdout=subprocess.PIPE, stderr=subprocess.STDOUT, text=True,
+                                   timeout=3600)
+            except subprocess.TimeoutExpired:
+                raise vp.Machinery("apalache timed out on the %s case of UpInd.tla" % what)
+            ok = "The outcome is: NoError" in p.stdout
+            chk.tlc_cmds.append({"what": "apalache-induction-" + what, "cmd": " ".join(cmd[:2] + cmd[2:4] + args),
+                                 "outcome": "NoError" if ok else "Error", "wall_s": round(time.time() - t0, 1)})
+            if not ok:
+                raise vp.Machinery("the inductive invariant of UpInd.tla fails (%s case):\n%s" % (what, p.stdout[-2000:]))
+    chk.notes["unbounded_induction"] = ("IndInv of UpInd.tla (counts = registered upstreams, published = counts, "
+                                        "cursor in range, no duplicates): every partition of up to %d upstreams over "
+                                        "two endpoints, removals repeated any number of times, runs of any length" % n)
+
+
 def upstream_family(chk, model_inv, model_props, trace_inv):
     quick = chk.tier == "quick"
     c = U_CONST if quick else U_CONST_T
     res = G.model_check(chk, chk.prop + "-exhaustive", c, model_inv, model_props, module="Upstreams")
+    induction(chk, 3 if quick else 5)
     # two complete transition covers: every local add/remove/close/select interleaving with a silent remote node,
     # and every change of the remote node (advertise, withdraw, unreachable, reachable) with few local upstreams
     ops = {}
